@@ -452,12 +452,127 @@ def run_recorded(ctx):
     ctx.count("recorded:jws-tokens", len(ver))
 
 
+def run_multi_key(ctx):
+    """One call for several keys with ONE template object: every recipient / signature of the result names, in its own
+    merged header, the algorithm that was applied for ITS key (the key's alg, else the inference for that key), carries
+    its own generated parameters, and is usable with its key alone.  Templates with and without a `header` member."""
+    rng = ctx.rng
+    pool = K.pool(ctx.jose)
+    pt = rng.randbytes(33)
+
+    def octk(n, **kw):
+        return dict({"kty": "oct", "k": G.b64u(rng.randbytes(n))}, **kw)
+    lists = [
+        ([octk(16, alg="A128KW"), octk(16, alg="A128GCMKW")], ["A128KW", "A128GCMKW"]),
+        ([octk(16, alg="A128GCMKW"), octk(32, alg="A256KW"), octk(24, alg="A192GCMKW")], ["A128GCMKW", "A256KW", "A192GCMKW"]),
+        ([pool["EC-P256"], pool["EC-P384"]], ["ECDH-ES+A128KW", "ECDH-ES+A192KW"]),
+        ([K.public(pool["EC-P256"]), K.public(pool["EC-P256-b"])], ["ECDH-ES+A128KW", "ECDH-ES+A128KW"]),
+        (["short pw", "a password that is rather longer than thirty-six characters"], ["PBES2-HS256+A128KW", "PBES2-HS512+A256KW"]),
+        ([pool["oct-16"], pool["RSA-2048"]], ["A128KW", "RSA-OAEP"]),
+        ([pool["EC-P521"], pool["RSA-2048"], pool["oct-32"]], ["ECDH-ES+A256KW", "RSA-OAEP", "A256KW"]),
+        ([octk(16, alg="A128GCMKW"), dict(pool["RSA-2048"], alg="RSA-OAEP-256")], ["A128GCMKW", "RSA-OAEP-256"]),
+    ]
+    priv = {json.dumps(K.public(pool[n]), sort_keys=True): pool[n] for n in pool if isinstance(pool[n], dict) and pool[n].get("kty") in ("EC", "RSA")}
+    ops = []
+    for keys, algs in lists:
+        for tmpl in (None, {}, {"header": {}}, {"header": {"typ": "demo"}}, {"header": {"kid": "shared", "x": [1, {"y": 2}]}}):
+            for form in ("array", "set"):
+                a = {"jwe": {"protected": {"enc": "A128GCM"}}, "jwk": keys if form == "array" else {"keys": keys}, "pt": pt.hex(),
+                     "rand": rng.randbytes(900).hex(), "_keys": keys, "_algs": algs, "_why": "%s of %d keys, template %s" % (form, len(keys), json.dumps(tmpl)),
+                     "_wrap": "RSA-OAEP" if any(isinstance(k, dict) and k.get("kty") in ("EC", "RSA") for k in keys) else None}
+                if tmpl is not None:
+                    a["rcp"] = tmpl
+                ops.append(("jwe.enc", a))
+
+    def p_multi(op, a, real):
+        if "crash" in real:
+            return None
+        if not real.get("ok"):
+            return ("enc:refused", "one call for several keys refused (%s)" % a["_why"])
+        tok = real["jwe"]
+        rcps = tok.get("recipients")
+        n = len(a["_keys"])
+        if not isinstance(rcps, list) or len(rcps) != n:
+            return ("enc:recorded", "%d keys but recipients = %s (%s)" % (n, json.dumps(rcps)[:200], a["_why"]))
+        for i, (r, want) in enumerate(zip(rcps, a["_algs"])):
+            h = dict(json.loads(G.b64d(tok["protected"])) if isinstance(tok.get("protected"), str) else {})
+            for layer in (tok.get("unprotected") or {}, (r.get("header") or {})):
+                for k_, v_ in layer.items():
+                    h.setdefault(k_, v_)
+            if h.get("alg") != want:
+                return ("enc:recorded", "recipient %d of %d: merged header names %r, the algorithm for its key is %s (%s): %s"
+                        % (i, n, h.get("alg"), want, a["_why"], json.dumps(tok)[:300]))
+        gen = [json.dumps({m: (r.get("header") or {}).get(m) for m in ("epk", "iv", "tag", "p2s")}, sort_keys=True) for r in rcps]
+        gen = [g for g in gen if g != json.dumps({"epk": None, "iv": None, "tag": None, "p2s": None}, sort_keys=True)]
+        if len(set(gen)) != len(gen):
+            return ("enc:shared-parameters", "two recipients carry the same generated parameters (%s): %s" % (a["_why"], json.dumps(rcps)[:400]))
+        return None
+    real, model = C04.cmp(ctx, ops, p_multi)
+    dec = []
+    for (op, a), r, m in zip(ops, real, model):
+        for side, res in (("jose", r), ("lean", m)):
+            if not res.get("ok") or not isinstance(res["jwe"].get("recipients"), list):
+                continue
+            for i, k in enumerate(a["_keys"]):
+                kk = priv.get(json.dumps(k, sort_keys=True), k) if isinstance(k, dict) else k
+                if i < len(res["jwe"]["recipients"]):
+                    dec.append(("jwe.dec", {"jwe": res["jwe"], "rcp": res["jwe"]["recipients"][i], "jwk": kk, "rand": "00" * 600, "_pt": a["pt"],
+                                            "_why": "%s-made, recipient %d named, %s" % (side, i, a["_why"])}))
+    C04.cmp(ctx, dec, C04.p_dec)
+    ctx.count("multi-key:jwe-calls", len(ops))
+    ctx.count("multi-key:recipient-decryptions", len(dec))
+    # JWS: one call for several keys
+    sops = []
+    slists = [([pool["oct-32"], pool["oct-64"]], ["HS256", "HS512"]), ([pool["EC-P256"], pool["EC-P521"], pool["RSA-2048"]], ["ES256", "ES512", "RS256"]),
+              ([dict(pool["oct-64"], alg="HS256"), pool["EC-K256"]], ["HS256", "ES256K"])]
+    for keys, algs in slists:
+        for tmpl in (None, {}, {"header": {"kid": "shared"}}, {"protected": {"typ": "demo"}}, {"protected": {"typ": "demo"}, "header": {"kid": "s"}}):
+            for form in ("array", "set"):
+                a = {"jws": {"payload": "cGF5"}, "jwk": keys if form == "array" else {"keys": keys}, "_keys": keys, "_algs": algs,
+                     "rnd": [rng.randbytes(32).hex() for _ in keys], "_why": "%s of %d keys, template %s" % (form, len(keys), json.dumps(tmpl))}
+                if tmpl is not None:
+                    a["sig"] = tmpl
+                sops.append(("jws.sig", a))
+
+    def p_smulti(op, a, real):
+        if "crash" in real:
+            return None
+        if not real.get("ok"):
+            return ("sig:refused", "one call for several keys refused (%s)" % a["_why"])
+        sigs = real["jws"].get("signatures")
+        if not isinstance(sigs, list) or len(sigs) != len(a["_keys"]):
+            return ("sig:recorded", "%d keys but signatures = %s" % (len(a["_keys"]), json.dumps(sigs)[:200]))
+        for i, (sg, want) in enumerate(zip(sigs, a["_algs"])):
+            h = G.merged_header(sg) or {}
+            if h.get("alg") != want:
+                return ("sig:recorded", "signature %d: merged header names %r, the algorithm for its key is %s (%s)" % (i, h.get("alg"), want, a["_why"]))
+        return None
+    real, model = C03.compare(ctx, sops, p_smulti)
+    ver = []
+    for (op, a), r in zip(sops, real):
+        if r.get("ok") and isinstance(r["jws"].get("signatures"), list):
+            for i, k in enumerate(a["_keys"]):
+                if i < len(r["jws"]["signatures"]):
+                    ver.append(("jws.ver", {"jws": r["jws"], "sig": r["jws"]["signatures"][i], "jwk": k, "_expect": True, "_why": "signature %d under its key, %s" % (i, a["_why"])}))
+            ver.append(("jws.ver", {"jws": r["jws"], "jwk": a["_keys"], "all": True, "_expect": True, "_why": "all keys, " + a["_why"]}))
+
+    def p_v(op, a, real):
+        if "crash" in real:
+            return None
+        if a.get("_expect") and not real.get("r"):
+            return ("ver:rejects-valid", "rejected (%s)" % a["_why"])
+        return None
+    C03.compare(ctx, ver, p_v)
+    ctx.count("multi-key:jws-calls", len(sops))
+
+
 def run(ctx):
     ctx.compare(gen(ctx), p_check, nontrivial)
     ctx.exhaustive = True
     extra = globals().get("run_recorded")
     if extra:
         extra(ctx)
+    run_multi_key(ctx)
 
 
 def replay(ctx, rp):
